@@ -260,7 +260,10 @@ def c05_5(ctx):
     assigns = [n for n in walk_no_nested(fn.node) if isinstance(n, ast.Assign) and any(
         isinstance(t, ast.Name) and t.id == 'current_memzone' for t in n.targets)]
     if not assigns:
-        raise AnalysisError('load_line_objects no longer keeps current_memzone')
+        ctx.refute('file:start-in-GLOBAL', fn.site(), 'the selected zone is per-file state: a local of the per-file call, initialised to GLOBAL',
+                   'load_line_objects keeps no local zone variable initialised from memzone_manager.global_zone: the selection lives in shared state, so an '
+                   'included file does not start in GLOBAL and the includer does not resume in its own zone')
+        return
     g = ctx.cfg(fn)
     loops = [n for n in walk_no_nested(fn.node) if isinstance(n, ast.For)]
     inits = []
@@ -317,7 +320,51 @@ def c05_5(ctx):
                   'lines are created in the file\'s current zone', f'current_memzone argument: {unparse(b.get("current_memzone"))}')
 
 
-RULES = [c05_1, c05_2, c05_3, c05_4, c05_5]
+def zone_provenance(ctx):
+    """Every line object is created in the zone current at its line: the zone is handed unchanged from the file loop
+    through the line factories to the LineObject constructor (shared by C02 and C05)."""
+    ctx.rule('C05.6', 'a line\'s zone is the zone current at that line, handed down unchanged', 12)
+    lo = ctx.repo.cls('bespokeasm.assembler.line_object.LineObject')
+    line_classes = {c.qualname for c in [lo] + lo.all_subclasses()}
+    n = 0
+    for fn in ctx.repo.all_functions():
+        for e in ctx.cg.callees(fn):
+            if not isinstance(e.node, ast.Call):
+                continue
+            cal = e.callee
+            zp = next((p_.arg for p_ in cal.call_params if p_.arg in ('current_memzone', 'memzone')), None)
+            if zp is None:
+                continue
+            is_line_ctor = cal.cls is not None and cal.cls.qualname in line_classes and cal.name == '__init__'
+            is_factory = cal.name in ('factory', 'parse_line') and cal.module.name.startswith('bespokeasm.assembler.line_object')
+            if not (is_line_ctor or is_factory):
+                continue
+            a = bind_args(e.node, cal).get(zp)
+            got = unparse(a) if a is not None else '<missing>'
+            n += 1
+            key = f'zone-of-line:{ctx.short(fn).split("assembler.")[-1]}->{cal.cls.name if cal.cls else cal.name}.{cal.name}'
+            if fn.qualname.endswith('SetMemoryZoneLine.__init__'):
+                ctx.ok(key, fn.site(e.node), 'a zone directive lives in the zone it selects (checked by C05.4)', got)
+                continue
+            if fn.qualname.endswith('Assembler.assemble_bytecode'):
+                ctx.check(got == 'memzone_manager.global_zone', key, fn.site(e.node), 'predefined data blocks live in GLOBAL', got)
+                continue
+            ctx.check(got in ('current_memzone', 'memzone'), key, fn.site(e.node),
+                      'the zone handed down is the caller\'s current zone', f'{zp}={got}')
+    if n < 12:
+        ctx.err('zone-of-line:sites', '-', 'at least 12 hand-down sites', f'{n}')
+    init = ctx.repo.func('bespokeasm.assembler.line_object.LineObject.__init__')
+    st = self_attr_stores(init.node, '_memzone')
+    ctx.check(len(st) == 1 and unparse(st[0][2]) == 'memzone', 'zone-of-line:stored', init.site(), 'a line keeps the zone it was created in', '; '.join(unparse(x[0]) for x in st))
+    mz = ctx.repo.func('bespokeasm.assembler.line_object.LineObject.memory_zone')
+    from engine.helpers import returns as _ret
+    rr = _ret(mz)
+    ctx.check(len(rr) == 1 and unparse(rr[0].value) == 'self._memzone', 'zone-of-line:read', mz.site(), 'line.memory_zone is that zone', '; '.join(unparse(r) for r in rr))
+    for f in lo.implementations('memory_zone'):
+        ctx.check(f.cls.qualname == lo.qualname, f'zone-of-line:override:{ctx.short(f)}', f.site(), 'no subclass overrides memory_zone', ctx.short(f))
+
+
+RULES = [c05_1, c05_2, c05_3, c05_4, c05_5, zone_provenance]
 
 # ---------------------------------------------------------------------- self-test variants
 from engine.selftest import V  # noqa: E402
@@ -357,6 +404,8 @@ MUTANTS = [
       '                            line_objects.extend(additional_line_objects)\n                            current_memzone = memzone_manager.global_zone\n', 'C05.5'),
 ]
 MUTANTS += [
+    V('c05-embedded-string-global', 'assembler/line_object/factory.py', "                        comment_str,\n                        current_memzone,\n                        model.cstr_terminator,", "                        comment_str,\n                        memzone_manager.global_zone,\n                        model.cstr_terminator,", 'C05.6'),
+    V('c05-label-global', 'assembler/line_object/factory.py', "                    label_scope,\n                    current_memzone,\n                )", "                    label_scope,\n                    memzone_manager.global_zone,\n                )", 'C05.6'),
     V('c05-org-by-resolved-zone', _AD, '        if self._parsed_memzone_name is None:\n', '        if self.memory_zone is self.memzone_manager.global_zone:\n', 'C05.4'),
 ]
 TWINS = [
